@@ -126,6 +126,7 @@ def main():
     a2.add_argument('--tier', default='quick')
     a2.add_argument('--jobs', type=int, default=3)
     a2.add_argument('--seed', type=int, default=1)
+    a2.add_argument('--seeds', help='comma list of VERIF_SEED values: report the detection rate per seeded change')
     a2.add_argument('--props', help='comma list: run these checks instead of the seeded property\'s own')
     a = ap.parse_args()
     if a.cmd == 'import':
@@ -141,6 +142,22 @@ def main():
         for p in (a.props.split(',') if a.props else [pid]):
             if os.path.exists(os.path.join(V, 'wdverif', 'props', p.lower() + '.py')):
                 jobs.append((n, p))
+    if a.seeds:
+        seeds = [int(x) for x in a.seeds.split(',')]
+        multi = [(n, p, sd) for (n, p) in jobs for sd in seeds]
+        with ThreadPoolExecutor(a.jobs) as ex:
+            rs = list(ex.map(lambda j: run_one(j[0], j[1], a.tier, j[2]), multi))
+        rates = {}
+        for (n, p, sd), r in zip(multi, rs):
+            rates.setdefault((n, p), []).append((sd, r['status'] == 'caught'))
+        path = os.path.join(V, 'seeded', 'rates.json')
+        old = json.load(open(path)) if os.path.exists(path) else {}
+        for (n, p), l in sorted(rates.items()):
+            hit = sum(1 for _, c in l if c)
+            print('%-10s %-4s caught at %d of %d seeds %s' % (n, p, hit, len(l), '' if hit == len(l) else 'MISSED at seeds %r' % [sd for sd, c in l if not c]))
+            old['%s/%s' % (n, p)] = dict(seeds=[sd for sd, _ in l], caught=[sd for sd, c in l if c])
+        json.dump(old, open(path, 'w'), indent=1, sort_keys=True)
+        return 0
     with ThreadPoolExecutor(a.jobs) as ex:
         results = list(ex.map(lambda j: run_one(j[0], j[1], a.tier, a.seed), jobs))
     path = os.path.join(V, 'seeded', 'results.json')
